@@ -248,10 +248,10 @@ Definition keys_of_xprim (x : xprim) : list ckey :=
   end.
 Definition xprims_call (f : nat) (nb : N) (ne : nenv) (e : env) (s : schema) (k : call) : list xprim :=
   match k with
-  | CUnser v => xprims_unser words pu0 f nb ne e s v
-  | CValidate v => xprims_validate words pu0 f nb ne e s v
-  | CSerialize v => xprims_serialize words pu0 f nb ne e s v
-  | CCompat v => xprims_compat words pu0 f nb ne e s v
+  | CUnser v => xprims_unser words pu0 false f nb ne e s v
+  | CValidate v => xprims_validate words pu0 false f nb ne e s v
+  | CSerialize v => xprims_serialize words pu0 false f nb ne e s v
+  | CCompat v => xprims_compat words pu0 false f nb ne e s v
   end.
 Definition touched_lazy (f : nat) (nb : N) (ne : nenv) (e : env) (s : schema) (k : call) : list ckey :=
   flat_map keys_of_xprim (xprims_call f nb ne e s k).
@@ -345,3 +345,47 @@ Fixpoint skeys (s : schema) : list ckey :=
 Definition schema_keys (e : env) (s : schema) : list ckey :=
   (skeys s ++ flat_map (fun io => skeys (snd io)) (e_self e)
    ++ flat_map (fun nt => flat_map (fun io => skeys (snd io)) (snd nt)) (e_ext e))%list.
+
+(* ---------- every READ may find a different cache state ----------
+   op_st evaluates a call against the cache as it was when the call started.  In the code a cell may be
+   filled (by this call or by another thread) between two reads of one call, so different reads see
+   different states.  Nothing changes: let every read find ANY coherent state — here a function of what
+   is read (st_int / st_float: the state found by the integer / float unit parser called on (u, text);
+   st_json: the state found when the default `text` is looked up) — the call still returns exactly what
+   the pure function returns. *)
+Section AnyState.
+Variable words : list (string * bool).
+Variable puw : re -> list (Z * unit_def) -> string -> option fl.
+Variables st_int st_float : units -> string -> vcache.
+Variable st_json : string -> vcache.
+
+Definition env_r (e : env) : env :=
+  mkEnv (e_self e) (e_ext e) (mkOracles (fun t => json_of (e_or e) (st_json t) t) (o_re_ok (e_or e))).
+Definition pu_r : units -> string -> option fl := fun u x => puw (re_of (st_float u x) u) (sorted_of (st_float u x) u) x.
+Definition pi_r : units -> string -> option Z :=
+  fun u x => parse_units_int_with (re_of (st_int u x) u) (sorted_of (st_int u x) u) x.
+Definition run_r (f : nat) (e : env) (s : schema) (k : call) : result :=
+  match k with
+  | CUnser v => RUnser (unser_c words pu_r pi_r f (env_r e) s v)
+  | CValidate v => RValidate (validate_c words pu_r pi_r f (env_r e) s v)
+  | CSerialize v => RSerialize (serialize_c words pu_r pi_r f (env_r e) s v)
+  | CCompat v => RCompat (compat_c words pu_r pi_r f (env_r e) s v)
+  end.
+
+Lemma run_r_coherent f e s k :
+  (forall u x, vcoherent (e_or e) (st_int u x)) -> (forall u x, vcoherent (e_or e) (st_float u x)) ->
+  (forall t, vcoherent (e_or e) (st_json t)) ->
+  run_r f e s k = run words (pu0 puw) f e s k.
+Proof.
+  intros Hi Hf Hj.
+  assert (Hpu : forall u s0, pu_r u s0 = pu0 puw u s0).
+  { intros u s0. unfold pu_r, pu0. now rewrite (re_of_coherent _ _ u (Hf u s0)), (sorted_of_coherent _ _ u (Hf u s0)). }
+  assert (Hpi : forall u s0, pi_r u s0 = parse_units_int u s0).
+  { intros u s0. unfold pi_r. rewrite (re_of_coherent _ _ u (Hi u s0)), (sorted_of_coherent _ _ u (Hi u s0)).
+    apply parse_units_int_with_eq. }
+  assert (Hsim : env_sim (env_r e) e).
+  { repeat split; cbn; auto. intros t. now apply json_of_coherent. }
+  destruct (ops_c_cong words (pu0 puw) pu_r pi_r Hpu Hpi f _ _ Hsim) as (A & B & _ & C & D).
+  destruct k; cbn [run_r run]; f_equal; auto.
+Qed.
+End AnyState.
